@@ -41,9 +41,20 @@ LEAF = {
     "trusted": ["Kani 0.68 / CBMC 6.11 and the `subtle` crate's Choice"],
 }
 
+def leaf(*relevant):
+    d = dict(LEAF)
+    d["relevant"] = list(relevant)
+    return d
+
+
+# which failed checks of the LEAF unit matter to which property
+LEAF_FUNCTIONAL_BOTH = leaf("is_zero detects zero", "is_zero only zero", "assertion failed: o")
+LEAF_ZERO_DETECTED = leaf("is_zero detects zero")
+LEAF_ALL = dict(LEAF)
+
 PROPS = {
     "C01": {
-        "units": [gen("C01"), {"name": "IMPL", "backend": "verus", "props": ["C01_impl.rs"], "tags": ["C01"], "specs": "contracts_impl", "prelude": "impl"}],
+        "units": [leaf("is_zero only zero"), gen("C01", props=["lib_bytes.rs", "C01.rs"]), {"name": "IMPL", "backend": "verus", "props": ["C01_impl.rs"], "tags": ["C01"], "specs": "contracts_impl", "prelude": "impl"}],
         "trusted_base": TB_ALGEBRA,
         "hypotheses": [X_NONID],
         "not_decided": ["serde_bare/serde_json round trips of Signature (derive expansion, L-SERDE)"],
@@ -55,7 +66,7 @@ PROPS = {
         "not_decided": ["re-randomised projective representations (equal as group elements: the contracts speak about group elements, A-GROUP)"],
     },
     "C04": {
-        "units": [gen("C04")],
+        "units": [LEAF_ZERO_DETECTED, gen("C04", props=["lib_bytes.rs", "C04.rs"])],
         "trusted_base": TB_ALGEBRA,
         "hypotheses": [],
     },
@@ -98,21 +109,21 @@ PROPS = {
         "not_decided": ["'rejected once the timeout has elapsed' is proved as: Ok implies the equation for the derived challenge, and the elapsed-time comparison is part of the verified body; the wall clock itself is an arbitrary value"],
     },
     "C15": {
-        "units": [LEAF, gen("C15", props=["lib_bytes.rs", "C15.rs"])],
+        "units": [LEAF_FUNCTIONAL_BOTH, gen("C15", props=["lib_bytes.rs", "C15.rs"])],
         "trusted_base": TB_ALGEBRA + ["A-ENC / scalar_le: to_repr/from_repr are inverse on canonical encodings; the all-zero encoding is exactly the zero scalar",
                                       "L-SERDE: serde derive expansions, serde_bare, serde_json, hex and the curve crates' (de)serializers are NOT verified"],
         "hypotheses": [],
         "not_decided": ["serde_bare and serde_json round trips of every type (derive expansions are outside both verifiers)", "types whose byte form is produced by serde_bare (Signature, AggregateSignature, MultiSignature, ProofCommitment, ProofOfKnowledge*, shares, ciphertexts)"],
     },
     "C16": {
-        "units": [LEAF, gen("C16", props=["lib_bytes.rs", "C16.rs"])],
+        "units": [LEAF_ZERO_DETECTED, gen("C16", props=["lib_bytes.rs", "C16.rs"])],
         "trusted_base": TB_ALGEBRA + ["A-ENC: from_bytes (checked decoder) is Some exactly for the encoding of a subgroup point", "L-SERDE (see C15)"],
         "hypotheses": [],
         "not_decided": ["serde-derived decoders and the curve crates' parsers (truncation handling of serde_bare, JSON)"],
     },
     "C17": {
         "safety": True,
-        "units": [LEAF, gen("C17", props=["lib_bytes.rs", "C17.rs"])],
+        "units": [leaf("overflow", "index out of bounds", "panic", "unwrap", "out of range", "attempt to"), gen("C17", props=["lib_bytes.rs", "C17.rs"])],
         "trusted_base": TB_ALGEBRA + ["A-TIME (see C10)", "L-SERDE: serde / serde_bare / serde_json decoders and the curve crates' parsers are not verified"],
         "hypotheses": [],
         "not_decided": ["serde-derived decoders (serde_bare / serde_json) and the curve crates' own parsers", "termination of the two probabilistic retry loops (zero scalar re-draw)"],
